@@ -68,6 +68,7 @@ class Sched:
     self.main.role = 'main'
     self.by_ident[threading.get_ident()] = self.main
     self.hooks = {}                   # loc-name -> callable(sched, ts): observation hooks at yield points
+    self.on_thread_start = None       # callable(sched, ts) run when a managed thread is started
     self.delay = None                 # (thread role/name, loc predicate, remaining steps) single-delay injection
 
   def _new(self, name):
@@ -334,6 +335,8 @@ class SThread(_real_Thread):
     self._ts.role = getattr(tgt, '__name__', None) or type(self).__name__
     self._sched = s
     self.daemon = True
+    if s.on_thread_start is not None:
+      s.on_thread_start(s, self._ts)
     me = atomic_enter()
     try:
       _real_Thread.start(self)
